@@ -502,15 +502,17 @@ def run(prog, tier, extra=None):
         raise LookupError("Mempool::add_transaction_if_validates not found")
     ch8 = Chaser(aiv)
     ins8 = {bb for bb, t in aiv.calls() if ((t.get("res") or t.get("callee") or "").replace("::{closure#0}", "")).endswith("Mempool::add_transaction")}
-    empty_chain = gate.bool_switch_edges(aiv, ch8, lambda e: e[0] == "call" and e[1].rsplit("::", 1)[-1] == "is_empty" and
-                                         (has_field(e, "blockchain::Blockchain", "blocks") or has_field(e, "blockchain::Blockchain", "blockring")))
+    def chain_is_empty(e):
+        return e[0] == "call" and e[1].rsplit("::", 1)[-1] == "is_empty" and (has_field(e, "blockchain::Blockchain", "blocks") or has_field(e, "blockchain::Blockchain", "blockring"))
+    ins_accept = lambda bb, env: "insert" if bb in ins8 else None
     for v8 in ("Fee", "ATR", "SPV", "Issuance"):
         res.instance(R8)
-        dead8 = gate.edges_not_taken_when(prog, aiv, ch8, "transaction::TransactionType", "transaction_type", v8)
-        if v8 == "Issuance":
-            dead8 = dead8 | empty_chain["true"]         # the genesis issuance of this node, while the chain is still empty
-        r8 = aiv.reachable(0, deleted_edges=dead8)
-        hit8 = sorted(x for x in ins8 if x in r8)
+        known8 = {}
+        # Issuance: the genesis issuance of this node is pooled while the chain is still empty - judge the type with "the chain has blocks"
+        assume8 = [(chain_is_empty, False)] if v8 == "Issuance" else []
+        dead8 = gate.edges_not_taken_when(prog, aiv, ch8, "transaction::TransactionType", "transaction_type", v8, assume=assume8, known=known8)
+        hit8 = Explorer(aiv, fixed_locals=dict(known8)).explore(0, deleted_edges=dead8, accept=ins_accept) if ins8 else {}
+        hit8 = sorted(p_[-1] for p_ in hit8.values()) if hit8 else []
         if not ins8:
             res.add(Finding(R8, "C14.pool-types|anchors", "add_transaction_if_validates no longer calls Mempool::add_transaction (anchor moved?)", aiv.loc(0)))
             break
